@@ -56,19 +56,31 @@ func (rc *Recorder) WaitCount(n int64, d time.Duration) bool {
 
 // replyFor writes the proper final response for the observed kind.
 func replyFor(o *Obs, w *gldap.ResponseWriter, r *gldap.Request) error {
-	switch o.Kind {
+	return replyWithDiag(o.Kind, w, r, "")
+}
+
+// replyWithDiag writes the proper final (success) response for the request
+// kind, carrying diag as its diagnostic message.
+func replyWithDiag(kind string, w *gldap.ResponseWriter, r *gldap.Request, diag string) error {
+	switch kind {
 	case "bind":
-		return w.Write(r.NewBindResponse(gldap.WithResponseCode(gldap.ResultSuccess)))
+		resp := r.NewBindResponse(gldap.WithResponseCode(gldap.ResultSuccess))
+		resp.SetDiagnosticMessage(diag)
+		return w.Write(resp)
 	case "search":
-		return w.Write(r.NewSearchDoneResponse(gldap.WithResponseCode(gldap.ResultSuccess)))
+		resp := r.NewSearchDoneResponse(gldap.WithResponseCode(gldap.ResultSuccess))
+		resp.SetDiagnosticMessage(diag)
+		return w.Write(resp)
 	case "modify":
-		return w.Write(r.NewModifyResponse(gldap.WithResponseCode(gldap.ResultSuccess)))
+		return w.Write(r.NewModifyResponse(gldap.WithResponseCode(gldap.ResultSuccess), gldap.WithDiagnosticMessage(diag)))
 	case "add":
-		return w.Write(r.NewResponse(gldap.WithApplicationCode(gldap.ApplicationAddResponse), gldap.WithResponseCode(gldap.ResultSuccess)))
+		return w.Write(r.NewResponse(gldap.WithApplicationCode(gldap.ApplicationAddResponse), gldap.WithResponseCode(gldap.ResultSuccess), gldap.WithDiagnosticMessage(diag)))
 	case "delete":
-		return w.Write(r.NewResponse(gldap.WithApplicationCode(gldap.ApplicationDelResponse), gldap.WithResponseCode(gldap.ResultSuccess)))
+		return w.Write(r.NewResponse(gldap.WithApplicationCode(gldap.ApplicationDelResponse), gldap.WithResponseCode(gldap.ResultSuccess), gldap.WithDiagnosticMessage(diag)))
 	case "extended":
-		return w.Write(r.NewExtendedResponse(gldap.WithResponseCode(gldap.ResultSuccess)))
+		resp := r.NewExtendedResponse(gldap.WithResponseCode(gldap.ResultSuccess))
+		resp.SetDiagnosticMessage(diag)
+		return w.Write(resp)
 	}
 	return nil // unbind: no response
 }
